@@ -299,11 +299,12 @@ pub fn gen_spec(rng: &mut Rng, tier: Tier) -> Spec {
     let b = Builder { p, q, small: &small };
     // large primes: a small pool above the factor base, so that collisions are frequent
     // large primes range up to 32 bits in real sieves (packed as ULEB128: 3 to 5 bytes)
-    let (maxlarge, lmax_bits): (u64, u64) = *rng.pick(&[(1u64 << 22, 21u64), (1 << 22, 21), (1 << 27, 26), ((1 << 32) - 1, 31)]);
+    // (the top class reaches 2^31..2^32: the encodings of such primes use the last bit of a u32)
+    let (maxlarge, lmax_bits): (u64, u64) = *rng.pick(&[(1u64 << 22, 21u64), (1 << 22, 21), (1 << 27, 26), ((1 << 32) - 1, 31), ((1 << 32) - 1, 32)]);
     let npool = rng.range(3, 14) as usize;
     let mut pool: Vec<u64> = vec![];
     while pool.len() < npool {
-        let lb = rng.range(17, lmax_bits) as u32;
+        let lb = if lmax_bits == 32 && rng.chance(0.5) { rng.range(30, 32) } else { rng.range(17, lmax_bits) } as u32;
         let l = gen_prime(rng, lb) as u64;
         // as in a real sieve, n must be a square modulo every large prime: (l|p) = (l|q)
         let same = legendre(l as u128, p) == legendre(l as u128, q);
